@@ -52,12 +52,15 @@ C35_UpdateReplaces ==
 
 -----------------------------------------------------------------------------
 IsRepl == ev.ev = "Repl"
-(* the same replicator set on both nodes, by every entry point *)
+(* the same replicator set on both nodes, whatever the insertion order *)
 C42_SameSet ==
   IsRepl => /\ SeqSet(ev.set1) = SeqSet(ev.set2)
             /\ AsFun(ev.in1) = AsFun(ev.in2) /\ AsFun(ev.ok1) = AsFun(ev.ok2)
-            /\ \A i \in 1..Len(ev.in1) : (ev.in1[i].d = 1) <=> (ev.in1[i].a \in SeqSet(ev.set1))
+(* IsBlockSharder / IsBlockSharderFromHash / CanShardBlockWithReplicators describe ONE set *)
+C42_EntryPointsAgree ==
+  IsRepl => /\ \A i \in 1..Len(ev.in1) : (ev.in1[i].d = 1) <=> (ev.in1[i].a \in SeqSet(ev.set1))
             /\ \A i \in 1..Len(ev.ok1) : ev.ok1[i].d = ev.in1[i].d /\ ev.ok1[i].a = ev.in1[i].a
+            /\ Names(ev.in1) = SeqSet(ev.o1)
 (* enough sharders => at least the configured number of replicators *)
 C42_AtLeastN == (IsRepl /\ ev.n > 0 /\ ev.size >= ev.n) => Cardinality(SeqSet(ev.set1)) >= ev.n
 (* replication disabled => every sharder stores every block *)
